@@ -47,6 +47,7 @@ def run(chk):
     r1_codec_table(chk, repo)
     r2_key_agreement(chk, repo)
     r3_metadata_from_chunk(chk, repo)
+    r3_chunk_order_of_forked_metadata(chk, repo)
     r4_rechunker_typestate(chk, repo)
     r5_empty_and_rebuild(chk, repo)
     r6_rechunker_conservation(chk, repo)
@@ -267,6 +268,34 @@ def r3_metadata_from_chunk(chk, repo):
     chk.check(bool(fn), "C03.R3", fsv, None, "chunk is written under a name different from the recorded one", site_text="FileSaver._save_chunk: fn = join(tempdir, filename)")
 
 
+def r3_chunk_order_of_forked_metadata(chk, repo):
+    """Forked savers write one metadata file per chunk; _close collects them with sorted(glob): the
+    file names must sort like the chunk numbers (zero-padded, same name as the chunk file)."""
+    import re
+    R = "C03.R3"
+    cl = repo.func("FileSaver._close", FILES)
+    coll = [n for n in walk_body(cl.node) if isinstance(n, ast.For) and "glob" in norm(n.iter) and "metadata_" in norm(n.iter)]
+    chk.check(len(coll) == 1, R, cl, None, "FileSaver._close no longer collects the per-chunk metadata files", site_text="FileSaver._close: for fn in sorted(glob(metadata_*))")
+    by_name = len(coll) == 1 and call_name(coll[0].iter) == "sorted" and not coll[0].iter.keywords
+    sm = repo.func("FileSaver._save_chunk_metadata", FILES)
+    d = Defs(sm.node)
+    opens = [c for c in calls_in(sm.node) if call_name(c) == "open" and c.args]
+    okn = False
+    for c in opens:
+        pv = provenance(d, c.args[0])
+        if "str:metadata_" in pv or any("metadata_" in a for a in pv if a.startswith("str:")):
+            okn = "call:self._chunk_filename" in pv or "call:_chunk_filename" in pv
+    cf = repo.func("FileSaver._chunk_filename", FILES)
+    consts = [x.value for x in ast.walk(cf.node) if isinstance(x, ast.Constant) and isinstance(x.value, str)]
+    fmt = [x for x in ast.walk(cf.node) if isinstance(x, ast.FormattedValue) and x.format_spec is not None]
+    padded = any(re.search(r"%0\d+d", c) for c in consts) or any(re.search(r"^0\d+d?$", norm(f.format_spec).strip("f'\"")) for f in fmt)
+    if by_name:
+        chk.check(okn and padded, R, sm, None, "per-chunk metadata files are collected in file-name order, but their names do not sort like the chunk numbers (not the zero-padded chunk file name): with more than ten chunks the stored chunk list comes out as 0, 1, 10, 11, 2, ... and the loader returns shuffled, non-contiguous data",
+                  site_text="FileSaver: metadata_<zero-padded chunk name>.json collected with sorted(glob)", site={"function": sm.qualname, "rule": "per-chunk metadata sorts like chunk numbers"})
+    else:
+        chk.check(len(coll) == 1 and ("chunk_i" in norm(coll[0].iter) or "chunk_i" in norm(cl.node)), R, cl, None, "per-chunk metadata files are not collected in chunk order", site_text="FileSaver._close: collected in chunk order")
+
+
 # ------------------------------------------------------------------------------------ R4
 def r4_rechunker_typestate(chk, repo):
     chk.describe("C03.R4", "every owner of a Rechunker flushes it and saves the flushed chunks before closing its saver; chunk numbers advance once per saved chunk")
@@ -449,6 +478,10 @@ def r6_rechunker_conservation(chk, repo):
 
 
 WITNESSES = [
+    W("per-chunk metadata named after the bare chunk number", "C03.R3", FILES,
+      "fn = f\"{self.tempdirname}/metadata_{filename}.json\"", "fn = f\"{self.tempdirname}/metadata_{self.prefix}-{chunk_info['chunk_i']}.json\""),
+    W("chunk files no longer zero-padded", "C03.R3", FILES,
+      "ichunk = \"%06d\" % chunk_info[\"chunk_i\"]", "ichunk = \"%d\" % chunk_info[\"chunk_i\"]"),
     W("bz2 stream truncated at one buffer per read", "C03.R1", IO,
       "decompressor = bz2.BZ2Decompressor()\n    data = bytearray()  # Efficient mutable storage\n    for d in iter(lambda: f.read(buffer_size), b\"\"):\n        data.extend(decompressor.decompress(d))",
       "decompressor = bz2.BZ2Decompressor()\n    data = bytearray()  # Efficient mutable storage\n    for d in iter(lambda: f.read(buffer_size), b\"\"):\n        data.extend(decompressor.decompress(d, max_length=buffer_size))"),
